@@ -378,6 +378,13 @@ def cal_probe(detector, p0=None, p1=None, p2=None, p3=None, offset=0.0, noise=0.
     detector.image.array = np.clip(np.abs(frame), 0, 60000).astype(np.uint16)
 
 
+def fitness_log(simulated, target, weighting=None):
+    """Fitness function that records the simulated data it was handed (one record per evaluated processor)."""
+    sim = np.array(simulated, dtype=float)
+    CAL_LOG.append({"kind": "fit", "sim": sim.copy(), "thread": threading.get_ident()})
+    return float(np.nansum(np.abs(sim - np.asarray(target, dtype=float))))
+
+
 COUNTER = {"n": 0}
 
 
